@@ -3,6 +3,8 @@ package main
 import (
 	"bytes"
 	"fmt"
+
+	"github.com/openacid/slim/xscribble"
 )
 
 // The simulated environment (stubs): a disk whose files have a durable prefix,
@@ -122,29 +124,9 @@ func (p *PoolBuf) Check() string {
 	return ""
 }
 
-// Scribble overwrites buf[from:to] according to pattern.
+// scribble overwrites buf[from:to] according to pattern (the writes happen in
+// the race-instrumented package xscribble).
 func scribble(buf []byte, from, to int, pattern string, r *Rng, other []byte) {
-	if to > len(buf) {
-		to = len(buf)
-	}
-	for i := from; i < to; i++ {
-		switch pattern {
-		case "zero":
-			buf[i] = 0
-		case "ff":
-			buf[i] = 0xff
-		case "random":
-			buf[i] = byte(r.U64())
-		case "stream":
-			if len(other) > 0 {
-				buf[i] = other[i%len(other)]
-			} else {
-				buf[i] = 0
-			}
-		case "invert":
-			buf[i] = ^buf[i]
-		default:
-			buf[i] = 0xee
-		}
-	}
+	st := r.U64() | 1
+	xscribble.Fill(buf, from, to, pattern, &st, other)
 }
